@@ -88,12 +88,16 @@ class FileNamesResolverForGlobPattern(FileNamesResolver):
 
     def resolve(self, environment: instruction.Environment) -> List[Path]:
         pattern = Path(self.pattern)
-        if pattern.is_absolute():
-            # Path.glob accepts only relative patterns: match relative to the root of the pattern
-            root = Path(pattern.anchor)
-            paths = root.glob(str(pattern.relative_to(root)))
-        else:
-            paths = environment.suite_file_dir_path.glob(self.pattern)
+        try:
+            if pattern.is_absolute():
+                # Path.glob accepts only relative patterns: match relative to the root of the pattern
+                root = Path(pattern.anchor)
+                paths = list(root.glob(str(pattern.relative_to(root))))
+            else:
+                paths = list(environment.suite_file_dir_path.glob(self.pattern))
+        except ValueError as ex:
+            # A pattern that Path.glob does not accept, e.g. '**' that is not an entire path component
+            raise FileNotAccessibleSimpleError(pattern, str(ex))
         return sorted([
             self.path_resolver(path)
             for path in paths
